@@ -315,10 +315,10 @@ pub fn run(ctx: &Ctx) -> PropResult {
     for (c, d) in &devs {
         assert_eq!(d.queue_cap, *c);
     }
-    let depth = if ctx.thorough { 7 } else { 5 };
+    let depth = if ctx.thorough { 7 } else { 6 };
     let n_ex = caps.len() * OPS.len();
     let rand_shards = 32usize;
-    let rand_cases = ctx.scaled(if ctx.thorough { 30_000 } else { 1_500 });
+    let rand_cases = ctx.scaled(if ctx.thorough { 100_000 } else { 5_000 });
     let accs = par::run_shards(
         n_ex + rand_shards + 1,
         ctx.threads,
